@@ -764,6 +764,7 @@ class Parser:
         return xonsh_call("__xonsh__.pathsearch", ast.Constant(value=a.string, **locs), **locs)
 
     def macro_call(self, a: ast.expr, b: list[TokenInfo], **locs: int) -> ast.Call:
+        self._tokenizer._call_macro = False  # the arguments may have been read back from the token cache
         gbl_call = xonsh_call("globals", **locs)
         loc_call = xonsh_call("locals", **locs)
         positionals = ast.Tuple(
